@@ -54,6 +54,8 @@ const (
 	sigShift     = "C20-default-nonlayer-child-shifts-urls-index"
 	sigCriWins   = "C20-default-flavour-manifest-supplied-cri-annotations-win"
 	sigKept      = "C20-extra-flavour-keeps-manifest-supplied-urls-prefetch-annotations"
+
+	sigDefaultFallback = "C20-extra-flavour-unusable-cri-labels-fall-back-to-manifest-supplied-default-annotations"
 )
 
 type Child struct {
@@ -527,6 +529,13 @@ func oracle(c Case, o obs) []failure {
 			if wellFormed {
 				fs = append(fs, failure{what: who + ": labels written for a well-formed manifest are rejected at mount time", detail: map[string]any{"child": idx}})
 			}
+			continue
+		}
+		if c.Flavour == "extra" && !wellFormed && !criOK && defOK && me.Ann[kRef] != "" && m[kRef] == me.Ann[kRef] && m[kDigest] == me.Ann[kDigest] {
+			// known class: the pulled reference / digest do not parse, so the CRI labels are unusable (the expected answer is
+			// a rejection), but the manifest supplied stargz.reference + stargz.digest annotations, the extra handler left
+			// them in place, and the service chain falls back to them
+			fs = append(fs, failure{sig: sigDefaultFallback, what: "CRI labels unusable, service reader falls back to manifest-supplied stargz.reference/digest annotations", detail: map[string]any{"child": idx}})
 			continue
 		}
 		sp, _ := parseRefOK(c.Ref)
